@@ -21,7 +21,6 @@ package store
 import (
 	"context"
 	"database/sql"
-	"fmt"
 	"path"
 	"time"
 
@@ -79,7 +78,9 @@ func (s *MySQLReplicateStore) Get(ctx context.Context, key string, withPrefix bo
 	var sqlStr string
 	var sqlArgs []any
 	if withPrefix {
-		sqlStr = fmt.Sprintf("SELECT task_msg_value FROM task_msg WHERE task_msg_key LIKE '%s%%'", taskMsgKey)
+		// path.Join removes the trailing slash, the prefix should stay inside the root path
+		sqlStr = "SELECT task_msg_value FROM task_msg WHERE task_msg_key LIKE ?"
+		sqlArgs = append(sqlArgs, getLikePrefixPattern(s.rootPath+"/"+key))
 	} else {
 		sqlStr = "SELECT task_msg_value FROM task_msg WHERE task_msg_key = ?"
 		sqlArgs = append(sqlArgs, taskMsgKey)
